@@ -233,11 +233,31 @@ def run(ctx):
     if not ctx.quick:
         probes += [{'allow': ['*'], 'metrics': ['a1', 'b2']}, {'allow': ['flt_*'], 'metrics': ['a1']},
                    {'allow': [], 'metrics': ['a1']}]
-    procs = [(p, subprocess.Popen([sys.executable, '-c', CLIENT_PROBE, REPO, json.dumps(p)], stdout=subprocess.PIPE,
-                                  stderr=subprocess.PIPE, text=True)) for p in probes]
+    # a sample of the specification's vectors through the same wiring, rendered over an alphabet in which names and patterns
+    # end in "_histogram" (the suffix the exporter gives to histogram keys): an entry is a pattern for instrument names,
+    # nothing else
+    ch2 = dict(CH, b='_histogram')
+    suff = [v for v in data['vectors'] if v['allow'] and v['metrics'] and any(len(p_) > 1 and p_[-1] == 'b' for p_ in v['allow'])]
+    rest = [v for v in data['vectors'] if v['allow'] and v['metrics'] and v not in suff[:400]]
+    r.shuffle(suff)
+    r.shuffle(rest)
+    nsamp = 12 if ctx.quick else 120
+    # (instrument names must start with a letter: every name gets the prefix "m", and so does every pattern that does not
+    # start with "*" - matching is unchanged by that)
+    ren = lambda q: 'm' + ''.join(ch2[c] for c in q)
+    renp = lambda q: ''.join(ch2[c] for c in q) if q[0] == '*' else ren(q)
+    for v in suff[:nsamp] + rest[:nsamp]:
+        probes.append({'allow': [renp(p_) for p_ in v['allow']], 'metrics': sorted({ren(m) for m in v['metrics']}),
+                       'expect': sorted({ren(m) for m in v['exported']})})
     import fnmatch
-    for p, pr in procs:
-        out, err = pr.communicate(timeout=300)
+    from concurrent.futures import ThreadPoolExecutor
+
+    def probe(p):
+        pr = subprocess.run([sys.executable, '-c', CLIENT_PROBE, REPO, json.dumps(p)], capture_output=True, text=True, timeout=600)
+        return p, pr.stdout, pr.stderr
+    with ThreadPoolExecutor(common.NCPU) as ex:
+        results = list(ex.map(probe, probes))
+    for p, out, err in results:
         line = [l for l in out.splitlines() if l.startswith('KEYS ')]
         if not line:
             raise common.MachineryError(f'client probe failed: {err[-2000:]}')
@@ -250,6 +270,9 @@ def run(ctx):
         w = {'source': 'OpenTelemetryClient wiring', 'allow': p['allow'], 'declared': p['metrics'],
              'facet_keys': keys}
         rep.sample(w, 6)
+        if 'expect' in p:     # the specification's Exported(allow, metrics) for the declared metrics
+            bad = sorted(set(bad) | ((set(keys) & set(p['metrics'])) - set(p['expect'])))
+            w['expected_exported'] = p['expect']
         if bad:
             rep.violation(f'OpenTelemetryClient exported {bad} with allow-list {p["allow"]!r}', w,
                           {'kind': 'leak', 'empty_allowlist': not allow})
